@@ -61,6 +61,8 @@ fn main() {
         "C05" => props::c05::run(&args, &mut acc),
         "C07" => props::c07::run(&args, &mut acc),
         "C08" => props::c08::run(&args, &mut acc),
+        "C09" => props::c09::run(&args, &mut acc),
+        "C10" => props::c10::run(&args, &mut acc),
         "C13" => props::c13::run(&args, &mut acc),
         "C15" => props::c15::run(&args, &mut acc),
         "C14" => props::c14::run(&args, &mut acc),
